@@ -3385,7 +3385,7 @@ class Viewbox:
         ):
             return ""
         if aspect is not None:
-            aspect_slice = aspect.split(" ")
+            aspect_slice = aspect.split()
             try:
                 align = aspect_slice[0]
             except IndexError:
